@@ -30,6 +30,9 @@ type ProgCase struct {
 	Record  bool       `json:"record_messages"`
 	Stdin   string     `json:"stdin"`
 	Chunks  []int      `json:"chunks"`
+	// NoLogDir: the configuration names no log directory (as the configuration file shipped with the program
+	// does not); the logs then belong in the program's working directory.
+	NoLogDir bool `json:"no_log_directory_configured"`
 }
 
 var progNo int
@@ -52,7 +55,13 @@ func checkProgram(c ProgCase, o *stats.Obs) error {
 		stats.HarnessBug("mkdir: %v", err)
 	}
 	defer os.RemoveAll(dir)
-	cfgJSON, _ := json.Marshal(map[string]interface{}{"display_messages": c.Display, "record_messages": c.Record, "log_directory": logs})
+	cfgMap := map[string]interface{}{"display_messages": c.Display, "record_messages": c.Record, "log_directory": logs}
+	if c.NoLogDir {
+		delete(cfgMap, "log_directory")
+		logs = dir // the working directory of the program
+		o.Class("no-log-directory-configured")
+	}
+	cfgJSON, _ := json.Marshal(cfgMap)
 	cfgFile := filepath.Join(dir, "filter.json")
 	os.WriteFile(cfgFile, cfgJSON, 0o644)
 	outFile := filepath.Join(dir, "stdout.bin")
@@ -214,6 +223,7 @@ func genProgram(t *rapid.T) ProgCase {
 	c.Display = rapid.Bool().Draw(t, "display")
 	c.Record = rapid.Bool().Draw(t, "record")
 	c.Stdin = rapid.SampledFrom([]string{"file", "file", "pipe", "pipe", "dir", "tcp-reset", "tcp-reset"}).Draw(t, "stdin")
+	c.NoLogDir = rapid.IntRange(0, 3).Draw(t, "noLogDir") == 1
 	n := rapid.IntRange(0, 3).Draw(t, "nChunks")
 	for i := 0; i < n; i++ {
 		c.Chunks = append(c.Chunks, rapid.SampledFrom([]int{1, 3, 16, 4096}).Draw(t, "chunk"))
